@@ -236,6 +236,22 @@ def run(chk):
              norm(n.args[1]) == rm.call_params()[0] for n in own_nodes(rm.node))
     chk.ob('C16-R', 'the registered handler is created with the received message', ok, '', rm.loc, key='C16-R|handler-msg')
 
+    ch = ix.func('mllp.MLLPRequestHandler._create_handler')
+    ok = any(isinstance(n, ast.Return) and norm(n.value) == '%s(%s, *%s)' % tuple(ch.call_params()[:3]) for n in own_nodes(ch.node))
+    chk.ob('C16-R', '_create_handler instantiates the registered class with (message, *args)', ok, '', ch.loc, key='C16-R|create')
+    ceh = ix.func('mllp.MLLPRequestHandler._create_error_handler')
+    ok = any(isinstance(n, ast.Return) and norm(n.value) == '%s(%s, %s, *%s)' % tuple(ceh.call_params()[:4]) for n in own_nodes(ceh.node))
+    chk.ob('C16-R', '_create_error_handler instantiates the ERR class with (exception, message, *args)', ok, '', ceh.loc, key='C16-R|create-err')
+    su = ix.func('mllp.MLLPRequestHandler.setup')
+    ok = any(norm(n) == 'self.handlers = self.server.handlers' for n in own_nodes(su.node) if isinstance(n, ast.Assign)) and \
+        any(norm(n) == 'self.timeout = self.server.timeout' for n in own_nodes(su.node) if isinstance(n, ast.Assign))
+    chk.ob('C16-R', 'each handler reads the routing table and the timeout of its server', ok, '', su.loc, key='C16-R|setup')
+    si = ix.func('mllp.MLLPServer.__init__')
+    ok = any(norm(n) == 'self.handlers = handlers' for n in own_nodes(si.node) if isinstance(n, ast.Assign)) and any(
+        isinstance(n, ast.Call) and norm(n.func) == 'ThreadingTCPServer.__init__' and len(n.args) >= 3 and
+        norm(n.args[2]) == si.call_params()[4] for n in own_nodes(si.node))
+    chk.ob('C16-R', 'the server stores the routing table and installs the request handler class', ok, '', si.loc, key='C16-R|server')
+
     # ---- C
     recvs = [n for n in own_nodes(hd.node) if isinstance(n, ast.Call) and norm(n.func) == 'self.request.recv']
     ok1 = len(recvs) == 1
